@@ -83,9 +83,10 @@ V_CkdPub(e) ==
   LET par == InPub(e.inp.par)
   IN Judge(e, K32!CKDpub(e, par, e.inp.i), par.c, K32!PubData(par, e.inp.i), "ckdpub")
 
-V_DerivePath(e) ==           \* e.inp = [root, path]
+V_DerivePath(e) ==           \* e.inp = [root, path] (+ form = "iterator": the path handed over as a one-shot iterable)
   LET root == InNode(e, e.inp.root)
-  IN Judge(e, K32!DerivePath(e, root, e.inp.path), <<>>, <<>>, "derivepath")
+  IN IF "form" \in DOMAIN e.inp /\ e.inp.form = "iterator" /\ Raised(e) THEN "ok"      \* refusing that argument type is fine
+     ELSE Judge(e, K32!DerivePath(e, root, e.inp.path), <<>>, <<>>, "derivepath")
 
 \* C02: private derivation then dropping the private part  =  public-only derivation.
 \* e.inp = [root (private), path]; e.res.v = [prv: node+strings, pub: node+strings]
@@ -104,6 +105,27 @@ V_Agree(e) ==
              ELSE IF e.res.v.pub.xpub # e.res.v.prv.xpub THEN "agree-xpub-strings-differ"
              ELSE IF e.res.v.pub.xpub # XpubStr(e, ru.node, DefaultVer("pub", ru.node.net)) THEN "agree-xpub-string"
              ELSE "ok"
+
+\* bulk generation: e.inp = [par, start, end (5-byte big-endian lists)]; e.res.v = seq of nodes.
+\* The children start..end-1 in order, each the CKD child; if any of them does not exist (hardened from public data,
+\* invalid) the call fails.  Indexes are compared as 4-byte strings, counting from start.
+Idx4Of(b5) == SubSeq(b5, 2, 5)
+RECURSIVE IdxRange(_, _)
+IdxRange(a5, n) == IF n = 0 THEN <<>> ELSE <<Idx4Of(a5)>> \o IdxRange(AddC(a5, <<0, 0, 0, 0, 1>>)[2], n - 1)
+V_GenChildren(e) ==
+  LET par == InNode(e, e.inp.par)
+      n == IF Less(e.inp.start, e.inp.end) THEN ToNat(SubB(e.inp.end, e.inp.start)) ELSE 0
+      idxs == IdxRange(e.inp.start, n)
+      outs == [j \in 1..n |-> K32!CKD(e, par, idxs[j])]
+  IN IF \E j \in 1..n : outs[j].out = "unjudged" THEN "ok"
+     ELSE IF \E j \in 1..n : outs[j].out # "ok"
+          THEN (IF Raised(e) THEN "ok" ELSE "genchildren-returned-nodes-although-a-child-does-not-exist")
+     ELSE IF Raised(e) THEN "genchildren-raised-on-valid"
+     ELSE IF Len(e.res.v) # n THEN "genchildren-count"
+     ELSE IF \E j \in 1..n : NodeDiff(outs[j].node, e.res.v[j]) # "same"
+          THEN LET j == CHOOSE x \in 1..n : NodeDiff(outs[x].node, e.res.v[x]) # "same" /\ \A y \in 1..(x - 1) : NodeDiff(outs[y].node, e.res.v[y]) = "same"
+               IN "genchildren-" \o NodeDiff(outs[j].node, e.res.v[j])
+     ELSE "ok"
 
 \* C18 fault sequences on SHARED objects: steps derive from the root or from the result
 \* of an earlier step; a failed step must leave everything else as it was.
@@ -665,6 +687,7 @@ Verdict(e) ==
     [] e.act = "DerivePath" -> V_DerivePath(e)
     [] e.act = "Agree" -> V_Agree(e)
     [] e.act = "CkdSeq" -> V_CkdSeq(e)
+    [] e.act = "GenChildren" -> V_GenChildren(e)
     [] e.act = "ExtSer" -> V_ExtSer(e)
     [] e.act = "ExtParse" -> V_ExtParse(e)
     [] e.act = "Import" -> V_Import(e)
